@@ -123,7 +123,7 @@ package raft
 //@ inv [I4] Lfirst <= r.lastApplied
 //@ inv [Iclk] r.lastContact <= now
 //@ inv [I6] r.state != Shutdown ==> r.configuration != nil && r.followers != nil
-//@ inv [I6b] r.state != Shutdown ==> forall id string :: id in r.followers ==> r.followers[id] != nil
+//@ inv [I6b] r.followers != nil ==> forall id string :: id in r.followers ==> r.followers[id] != nil
 //@ inv [I7] persTerm == r.currentTerm && persVote == r.votedFor
 //@ inv [I13] r.state == Leader ==> forall fid string :: fid in r.followers ==> r.followers[fid].nextIndex <= Llast + 1
 //@ inv [I11] r.operationManager != nil && r.operationManager.leaderLease != nil
@@ -136,6 +136,7 @@ package raft
 //@ guar [G3] r.commitIndex >= old(r.commitIndex)
 //@ guar [G4] r.lastApplied >= old(r.lastApplied)
 //@ guar [Gqv] forall o *Operation :: old(allocated(o)) && old(o.quorumVerified) ==> o.quorumVerified
+//@ guar [Gsticky] (old(r.followers) != nil ==> r.followers != nil) && (old(r.configuration) != nil ==> r.configuration != nil)
 //@ guar [Gclk] now >= old(now)
 // GL (leader append-only): used as rely under assumption A-LEAD-ONCE (a node does not enter the
 // leader state twice in one term), without which it is not transitive.
@@ -405,6 +406,7 @@ package raft
 //@   ensures [lease-fresh] now >= old(now) && (!old(singleMember(r)) ==> r.operationManager.leaderLease.expiration <= now)
 //@   ensures [snapshot-reset] r.snapshot == nil
 //@   ensures [answered-mono] forall c int :: old(answered[c]) ==> answered[c]
+//@   ensures [qv-mono] forall o *Operation :: old(allocated(o)) && old(o.quorumVerified) ==> o.quorumVerified
 //@   loop range r.followers invariant [reset] Llast == old(Llast) && forall fid string :: fid in visited ==> r.followers[fid].matchIndex == 0 && r.followers[fid].nextIndex <= Llast + 1
 
 //@ func Raft.sendAppendEntriesToPeers
